@@ -228,6 +228,8 @@ def run(ctx):
     common.reconstruction_is_uncached(ctx, 'C07.R2')
     common.version_group_setters_total(ctx, 'C07.R2')
     common.entity_getters_hand_out_copies(ctx, 'C07.R4')
+    from .c05 import writers_copy_lxml_values
+    writers_copy_lxml_values(ctx, 'C07.R2', used_in=['sdc11073.mdib.', 'sdc11073.xml_types.pm_types'], floor=1)   # building the next response tree takes no element out of the previous one
     common.copies_are_deep(ctx, 'C07.R4')   # a state object selected under the lock does not share values with a later copy
     # ---------------------------------------------------------------- R3
     tm = repo.func('sdc11073.mdib.providermdib.ProviderMdib._transaction_manager')
